@@ -220,7 +220,7 @@ fn is_success(i: &Indication) -> bool {
     }
 }
 
-pub fn run(ops: &str, out: &mut impl Write, orc: &mut impl Write) {
+pub fn run(ops: &str, out: &mut impl Write, orc: &mut impl Write, rstats: &mut Stats) {
     let rt = tokio::runtime::Builder::new_current_thread().enable_time().start_paused(true).build().unwrap();
     rt.block_on(async {
         for (hdr, lines) in cases(ops) {
@@ -267,6 +267,7 @@ pub fn run(ops: &str, out: &mut impl Write, orc: &mut impl Write) {
             let mut s_success = 0u32;
             let mut last_fuel_left = true;
             let mut user_interfered = false;
+            let (mut eof_sent, mut fin_sent, mut nak_sent, mut drops_hit) = (0u64, 0u64, 0u64, 0u64);
             for (k, l) in lines.iter().enumerate() {
                 let t: Vec<&str> = l.split_whitespace().collect();
                 sys.s.acc_p.clear();
@@ -314,6 +315,7 @@ pub fn run(ops: &str, out: &mut impl Write, orc: &mut impl Write) {
                         let q = if to_r { &mut sys.qsr } else { &mut sys.qrs };
                         if let Some(i) = pick(kk, q.len()) {
                             q.remove(i);
+                            drops_hit += 1;
                         }
                     }
                     "CUT" => {
@@ -375,7 +377,39 @@ pub fn run(ops: &str, out: &mut impl Write, orc: &mut impl Write) {
                 }
                 r_success += rs;
                 s_success += ss;
+                for (_, p) in sys.s.acc_p.iter().chain(sys.r.acc_p.iter()) {
+                    match &p.payload {
+                        PDUPayload::Directive(Operations::EoF(_)) => eof_sent += 1,
+                        PDUPayload::Directive(Operations::Finished(_)) => fin_sent += 1,
+                        PDUPayload::Directive(Operations::Nak(_)) => nak_sent += 1,
+                        _ => {}
+                    }
+                }
             }
+            // ---- what this case exercised on the real code
+            rstats.inc("cases");
+            if r_success > 0 {
+                rstats.inc("receiver_reported_success");
+            }
+            if s_success > 0 {
+                rstats.inc("sender_reported_success");
+            }
+            if sys.s.dead && sys.r.dead {
+                rstats.inc("both_ended");
+            }
+            if eof_sent >= 2 {
+                rstats.inc("eof_retransmitted");
+            }
+            if fin_sent >= 2 {
+                rstats.inc("finished_retransmitted");
+            }
+            if nak_sent >= 1 {
+                rstats.inc("nak_sent");
+            }
+            if drops_hit > 0 {
+                rstats.inc("cases_with_effective_drop");
+            }
+            rstats.add("effective_drops", drops_hit);
             // ---- end-of-case oracles (the generator ends these scripts with a long RUN)
             let (s_st, r_st) = (sys.s.tx.verif_get_state(), sys.r.tx.verif_get_state());
             let k = lines.len();
